@@ -9,7 +9,7 @@ The model runs with blinding factor 0; the implementation's is random (that the 
 is part of C02).
 -/
 namespace Pycoin.Driver.C01
-open Pycoin.Curve Pycoin.Driver Pycoin.Driver.C02
+open Pycoin.Curve Pycoin.Driver Pycoin.Driver.C02 Pycoin.Native
 
 def handle : Handler := fun op args =>
   match op, args with
@@ -32,6 +32,20 @@ def handle : Handler := fun op args =>
   | "recover", [c, z, r, s, par] => do
     let par ← if par = "~" then some none else (parseInt? par).map some
     let res := possiblePublicPairsForSignature (← parseCurve? c) 0 (← parseInt? z) (← parseInt? r) (← parseInt? s) par
+    some (showRes (fun l => if l.isEmpty then "~" else ";".intercalate (l.map showPt)) res)
+  -- Generator.sign_with_recid / verify / possible_public_pairs_for_signature run over the GLUE MODEL of the OpenSSL class
+  -- (`Gen.*` over `Ossl.methods`, libcrypto played by the pure model), compared with the real OpenSSL-configured class
+  | "ossl_sign", [c, d, z] => do
+    let c ← parseCurve? c
+    let r := Gen.signWithRecid (Ossl.methods (pureLib c) c) c 0 Pycoin.RFC6979.deterministicGenerateK (← parseInt? d) (← parseInt? z)
+    some (showRes (fun (t : Int × Int × Int) => s!"{t.1} {t.2.1} {t.2.2}") r)
+  | "ossl_verify", [c, Q, z, r, s] => do
+    let c ← parseCurve? c
+    some (showRes showBool (Gen.verify (Ossl.methods (pureLib c) c) c 0 (← parsePt? Q) (← parseInt? z) (← parseInt? r) (← parseInt? s)))
+  | "ossl_recover", [c, z, r, s, par] => do
+    let c ← parseCurve? c
+    let par ← if par = "~" then some none else (parseInt? par).map some
+    let res := Gen.possiblePublicPairsForSignature (Ossl.methods (pureLib c) c) c 0 (← parseInt? z) (← parseInt? r) (← parseInt? s) par
     some (showRes (fun l => if l.isEmpty then "~" else ";".intercalate (l.map showPt)) res)
   -- Key.sign / Key.verify: the Key constructor's range / on-curve checks, then Generator.sign / verify; the DER
   -- wrapper is encode-then-decode of (r, s) and `except (UnexpectedDER, ValueError): return False`
